@@ -102,6 +102,8 @@ def classify_line(line):
     for ch in line:
         if ch.isspace() and ch not in ' \t':
             return EITHER, 'exotic whitespace in line'
+    if '\x00' in line:
+        return EITHER, 'raw NUL in line'
     toks = [t for t in re.split(r'[ \t]+', line) if t]
     if not toks:
         return ACCEPT, None
